@@ -239,8 +239,7 @@ def hstep (st : St) (ts : List String) : St × String :=
           if dirtyOther st hi p then (st, "err dirty") else
           let r := h.obj.firstBytes st.disk k
           let h' := { h with obj := r.2 }
-          let h' := if h.mode ≥ 0 then { h' with dirty := false }
-            else if h'.mode == 0 then { h' with ver := st.pver p } else h'
+          let h' := if h.mode ≥ 0 then { h' with dirty := false } else { h' with poisoned := false }
           (upd st h', showBytes r.1)
       else if wop == "hr" then
         match b.toNat? with
@@ -249,10 +248,29 @@ def hstep (st : St) (ts : List String) : St × String :=
           if h.mode ≥ 1 then (st, "err mode") else
           if h.mode < 0 then (st, "err closed") else
           if pathDirty st p then (st, "err dirty") else
-          if h.spent then (st, "err spent") else
           if h.ver != st.pver p then (st, "err stale") else
           let r := h.obj.read k
           (upd st { h with obj := r.2 }, showBytes r.1)
+      else if wop == "hcopy" || wop == "hmove" then
+        let full := b == "full"
+        match (if full then some 99 else parsePath b) with
+        | none => (st, "bad-op")
+        | some q =>
+          let busy := (st.hs.zipIdx).any fun (o, i) => match o with
+            | some x => x.mode ≥ 0 && ((i != hi && x.obj.path == p) || (!full && x.obj.path == q && i != hi))
+            | none => false
+          if busy then (st, "err busy") else
+          if wop == "hcopy" then
+            let r := if full then copyToFull st.disk p else h.obj.copy st.disk q
+            let st := { st with disk := r.2 }
+            let st := if full then st else bumpVer st q
+            (upd st (if h.mode ≥ 0 then { h with dirty := false } else h), b01 r.1)
+          else
+            let o' := if h.obj.file.isSome then h.obj.close else h.obj
+            let r := if full then moveToFull st.disk p else (h.obj.move st.disk q (cross st p q)).1
+            let st := bumpVer { st with disk := r.2 } p
+            let st := if full then st else bumpVer st q
+            (upd st { obj := o', ver := h.ver, poisoned := if h.mode ≥ 0 then false else h.poisoned }, b01 r.1)
       else (st, "bad-op")
     | qop, [] =>
       if qop == "hsize" || qop == "hexists" || qop == "hisfile" || qop == "hisdir" || qop == "hmtime" then
@@ -271,35 +289,25 @@ def hstep (st : St) (ts : List String) : St × String :=
           (upd st { h with obj := r.2 }, b01 r.1)
         else
           (upd st { h with obj := h.obj.touch st.disk }, if qop == "hisdir" then "0" else "ok")
-      else if qop == "hcontent" || qop == "htext" then
-        if qop == "htext" && !h.obj.isText then (st, "err kind") else
+      else if qop == "hcontent" || qop == "htext" || qop == "hlines" then
+        if (qop == "htext" || qop == "hlines") && !h.obj.isText then (st, "err kind") else
         if dirtyOther st hi p then (st, "err dirty") else
         let (out, o') : String × Obj :=
           if qop == "hcontent" then let r := h.obj.content st.disk; (showBytes r.1, r.2)
-          else
+          else if qop == "htext" then
             let r := h.obj.text st.disk
             (match r.1 with | some t => showBytes t | none => "crash read-outside", r.2)
-        let h' := { h with obj := o', poisoned := false }
-        let h' := if h.mode ≥ 0 then { h' with dirty := false }
-          else if h'.mode == 0 then { h' with ver := st.pver p, spent := qop == "htext" } else h'
+          else let r := h.obj.lines st.disk; (showLines r.1, r.2)
+        let h' := { h with obj := o' }
+        if (h'.mode ≥ 0) != (h.mode ≥ 0) then (upd st h', "err open-state-changed " ++ out) else
+        let h' := if h.mode ≥ 0 then { h' with dirty := false } else { h' with poisoned := false }
         (upd st h', out)
-      else if qop == "hlines" then
-        if !h.obj.isText then (st, "err kind") else
-        if h.mode ≥ 1 then (st, "err mode") else
-        if pathDirty st p then (st, "err dirty") else
-        if h.spent then (st, "err spent") else
-        if h.mode == 0 && h.ver != st.pver p then (st, "err stale") else
-        let r := h.obj.lines st.disk
-        let h' := { h with obj := r.2 }
-        let h' := if h.mode < 0 && h'.mode == 0 then { h' with ver := st.pver p } else h'
-        let h' := if h'.mode == 0 then { h' with spent := true } else h'
-        (upd st h', showLines r.1)
       else (st, "bad-op")
     | _, _ => (st, "bad-op")
   | _ => (st, "bad-op")
 
 def hOps : List String := ["hnew", "hopen", "hclose", "hflush", "hw", "happ", "hput", "hsh", "hsize", "hexists", "hisfile",
-  "hisdir", "hmtime", "hcontent", "hfirst", "hr", "htext", "hlines"]
+  "hisdir", "hmtime", "hcontent", "hfirst", "hr", "htext", "hlines", "hcopy", "hmove"]
 
 def obsOps : List String := ["raw", "size", "content", "text", "lines", "exists", "first"]
 
@@ -446,6 +454,12 @@ def stepOld (st0 : St) (ts : List String) : St × String :=
   | ["lines", p] => match parsePath p with
     | some p => (st, linesStr st.disk p)
     | none => (st, "bad-op")
+  | ["copy", p, "full"] => match parsePath p with
+    | some p => let r := copyToFull st.disk p; ({ st with disk := r.2 }, b01 r.1)
+    | none => (st, "bad-op")
+  | ["move", p, "full"] => match parsePath p with
+    | some p => let r := moveToFull st.disk p; ({ st with disk := r.2 }, b01 r.1)
+    | none => (st, "bad-op")
   | ["copy", p, q] => match parsePath p, parsePath q with
     | some p, some q => let r := copy st.disk p q; ({ st with disk := r.2 }, b01 r.1)
     | _, _ => (st, "bad-op")
@@ -479,6 +493,24 @@ def stepOld (st0 : St) (ts : List String) : St × String :=
     | none => (st, "bad-op")
   | ["xtext", b] => match parseBytes b with
     | some bs => let d := st.disk.set 0 (some bs); ({ st with disk := d }, textStr d 0)
+    | none => (st, "bad-op")
+  | ["xwlines", b] => match parseBytes b with
+    | some bs =>
+      let d0 := st.disk.set 0 none
+      let w := (Obj.new 0 true).twrite d0 .write bs
+      let l1 := w.2.2.lines w.2.1
+      let o2 := l1.2.close
+      let o3 := (o2.text w.2.1).2
+      let l2 := o3.lines w.2.1
+      let l3 := l2.2.lines w.2.1
+      ({ st with disk := w.2.1 }, s!"{showLines l1.1} | {showLines l2.1} | {showLines l3.1}")
+    | none => (st, "bad-op")
+  | ["xfull", b] => match parseBytes b with
+    | some bs =>
+      let d1 := st.disk.set 0 (some bs)
+      let c := copyToFull d1 0
+      let mv := moveToFull c.2 0
+      ({ st with disk := mv.2 }, s!"{b01 c.1} {b01 mv.1} {rawStr mv.2 0}")
     | none => (st, "bad-op")
   | [xop, k, b] =>
     if xop == "xtwice" || xop == "xputread" || xop == "xreopen" then
@@ -515,7 +547,41 @@ def stepOld (st0 : St) (ts : List String) : St × String :=
           ({ st with disk := r.2.1 }, s!"{b01 r.1} {r2} {rawStr r.2.1 0}")
     else stepOldRest st [xop, k, b]
   | [xop, k, b1, b2] =>
-    if xop == "xstale" || xop == "xstalesize" then
+    if xop == "xreadwrite" then
+      match parseBytes b1, parseBytes b2 with
+      | some bs1, some bs2 =>
+        if k != "f" && k != "t" then (st, "bad-op") else
+        let isT := k == "t"
+        let d1 := st.disk.set 0 (some bs1)
+        let o := Obj.new 0 isT
+        if isT then
+          let o1 := (o.text d1).2
+          let o2 := (o1.lines d1).2
+          let r := o2.twrite d1 .append bs2
+          ({ st with disk := r.2.1 }, s!"{b01 r.1} {rawStr r.2.1 0}")
+        else
+          let o1 := (o.content d1).2
+          let o2 := (o1.firstBytes d1 1).2
+          let r := o2.put d1 bs2
+          ({ st with disk := r.2.1 }, s!"{b01 r.1} {rawStr r.2.1 0}")
+      | _, _ => (st, "bad-op")
+    else if xop == "xobjcopy" then
+      match parseBytes b2 with
+      | some bs =>
+        if k != "f" && k != "t" then (st, "bad-op") else
+        let isT := k == "t"
+        let st := { st with xdev := b1 == "1" }
+        let d0 := ((st.disk.set 0 none).set 1 none).set 2 none
+        let wr (d : Disk) (o : Obj) : Disk × Obj :=
+          if isT then let x := o.twrite d .write bs; (x.2.1, x.2.2) else let x := o.put d bs; (x.2.1, x.2.2)
+        let (d1, o1) := wr d0 (Obj.new 0 isT)
+        let c := o1.copy d1 1
+        let (d2, o2) := wr c.2 o1
+        let mv := o2.move d2 2 (cross st 0 2)
+        ({ st with disk := mv.1.2 },
+          s!"{b01 c.1} {rawStr c.2 1} {b01 mv.1.1} {rawStr mv.1.2 2} src={b01 (mv.1.2 0).isSome}")
+      | none => (st, "bad-op")
+    else if xop == "xstale" || xop == "xstalesize" then
       match parseBytes b1, parseBytes b2 with
       | some bs1, some bs2 =>
         if k != "f" && k != "t" then (st, "bad-op") else
